@@ -14,6 +14,8 @@
          7 AtomicBitmap::new(byte_size, page_size) then enlarge(k)   params [byte_size, page_size, k], byte_size + k < 2^64
          8 ByteValued::as_bytes() of an object   params [pre, oc]  object of type oc (0 u8 1 u16 2 u32 3 u64 4 [u8;3]
            5 [u8;16] 6 u128) living at arena + pre (pre a multiple of its alignment); the VolatileSlice over its bytes
+         9 a ByteValued TYPE   params [oc]  oc as for kind 8, 7 = Be32 (endian wrapper); the byte buffer handed to
+           from_slice / from_mut_slice is arena[a .. a+b] (the arena is page aligned: a is the misalignment)
      ty  0..3 = u8 u16 u32 u64 (size = align = 2^ty);  ops 65..69 also 4 = [u8;3], 5 = [u8;16] (align 1)
      op  (VolatileMemory / VolatileSlice)
          0 get_slice(a,b)  1 subslice(a,b)  2 offset(a)  3 split_at(a)  4 get_ref<T>(a)
@@ -49,7 +51,9 @@
          (bitmap views)
          70 RefSlice(base c).slice_at(a).slice_at(b).mark_dirty(a,b)   71 ... .dirty_at(b)
          72 Some(bitmap).mark_dirty(a,b)  73 Some(bitmap).dirty_at(a)  74 Some(bitmap).slice_at(c).mark_dirty(a,b)
-         75 Some(bitmap).slice_at(c).dirty_at(a)  76 None::<AtomicBitmap>: mark_dirty(a,b), dirty_at(a), slice_at(c).mark_dirty(a,b) *)
+         75 Some(bitmap).slice_at(c).dirty_at(a)  76 None::<AtomicBitmap>: mark_dirty(a,b), dirty_at(a), slice_at(c).mark_dirty(a,b)
+         (ByteValued, target kind 9; buffer = b bytes at misalignment a)
+         80 T::from_slice(buf)  81 T::from_mut_slice(buf)  82 T::zeroed()  83 zeroed().as_slice()  84 zeroed().as_mut_slice() *)
 From VM Require Import Prelude.MachInt Prelude.Outcome Prelude.Tok Prelude.C1314List.
 From VM Require Impl.Address Impl.Volatile Impl.VolMem Impl.Guest Impl.Bitmap Impl.Io Impl.IoGuest Impl.IoEnd.
 From VM Require Spec.C14 Suite.C14.
@@ -73,9 +77,14 @@ Definition zeros (n : N) : list N := repeat 0 (N.to_nat n).
 
 (* the object types of target kind 8 (ByteValued::as_bytes): size and alignment *)
 Definition osize (oc : N) : N :=
-  match oc with 0 => 1 | 1 => 2 | 2 => 4 | 3 => 8 | 4 => 3 | 5 => 16 | 6 => 16 | _ => 0 end.
+  match oc with 0 => 1 | 1 => 2 | 2 => 4 | 3 => 8 | 4 => 3 | 5 => 16 | 6 => 16 | 7 => 4 | _ => 0 end.
 Definition oalign (oc : N) : N :=
-  match oc with 1 => 2 | 2 => 4 | 3 => 8 | 6 => 16 | _ => 1 end.
+  match oc with 1 => 2 | 2 => 4 | 3 => 8 | 6 => 16 | 7 => 4 | _ => 1 end.
+Definition oety (oc : N) : Volatile.ety := {| Volatile.e_size := osize oc; Volatile.e_align := oalign oc |}.
+(* ByteValued::from_slice / from_mut_slice (bytes.rs:44-87, Impl/Volatile.v bv_from_slice): Some / None, for every buffer
+   length and alignment; zeroed / as_slice / as_mut_slice take no guest-chosen input (class 0) *)
+Definition bv_cls (oc op a b : N) : N :=
+  if (op =? 80) || (op =? 81) then cls_opt (Volatile.bv_from_slice (oety oc) (HB + a) b) else 0.
 
 (* ------------------------------------------------------------------ accessor geometry *)
 Definition geom_root (c : case07) : option Volatile.accessor :=
@@ -349,6 +358,7 @@ Definition run_C07 (c : case07) : N :=
   | 5, [bs; ps] => bitmap_cls bs ps op a b (q_c c)
   | 7, [bs; ps; k] => bitmap_enl_cls m bs ps k op a b (q_c c)
   | 6, [] => cls_out cls_opt (Address.a_checked_align_up m a b)
+  | 9, [oc] => bv_cls oc op a b
   | _, _ => 2
   end.
 
@@ -367,6 +377,7 @@ Definition op_ok (tgt op : N) : bool :=
   | 6 => op =? 60
   | 7 => ((50 <=? op) && (op <=? 58)) || ((70 <=? op) && (op <=? 76))
   | 8 => (op <=? 20) || ((65 <=? op) && (op <=? 69))
+  | 9 => (80 <=? op) && (op <=? 84)
   | _ => false
   end.
 Definition reg_okb (top : N) (p : N * N) : bool := (0 <? snd p) && (snd p <? W64) && (fst p + snd p <=? top).
@@ -393,6 +404,7 @@ Definition wf_tgt (c : case07) : bool :=
   | 7, [bs; ps; k] => (0 <? ps) && (bs + k <? W64)       (* the sum fits usize: enlarge's `+=` does not overflow *)
   | 6, [] => true
   | 8, [pre; oc] => (pre <=? 4080) && (oc <=? 6) && (pre mod oalign oc =? 0) && (HB + pre + osize oc <=? ISZ_MAX)
+  | 9, [oc] => (oc <=? 7) && (q_a c + q_b c <=? 4096)
   | _, _ => false
   end.
 Definition wf07 (c : case07) : bool :=
